@@ -247,6 +247,7 @@ def run_lockstep(ctx: Ctx) -> None:
                 _guard(ctx, "T13.ramp", f"{tag}:avg_pool:{k}:{kwp}", IBm["avg_pool"], f"op=avg_pool kernel={k} {kwp} {tag}", thp)
             # sampling on other grids
             _sample_obligations(ctx, env, tag, IBm["sample"])
+            _resample_obligations(ctx, shape, ac, tag, IBm["resample"])
             # interpolation flag pairing (own environment: sizes within the property's quantifier size / 2^levels >= 2)
             env_i = BatchEnv(ctx, (4, 6) if D == 2 else (4, 4, 6), N=2, C=1, ac=ac)
             size_i = tuple(reversed(env_i.shape))
@@ -287,6 +288,69 @@ def run_lockstep(ctx: Ctx) -> None:
                     r = envf.it.method(envf.batch, op, *args, **kw)
                     return _check_index_only(envf, r, fill, mode)
                 _guard(ctx, "T13.index-only", f"{tag},fractional-size:{op}:{desc}", IBm[op], f"op={op} {desc} {tag},fractional-size", thf)
+
+
+def _resample_obligations(ctx: Ctx, shape, ac: bool, tag: str, fR) -> None:
+    """ImageBatch.resample(spacing): the data is interpolated at the world positions of the returned grid's samples."""
+    ctx.rule("T13.resample", "ImageBatch.resample(spacing) (images sharing a symbolic spacing, own centers / orientations): the returned grid of "
+                             "each image is Grid.resample(spacing) of its grid, its size is the data shape, and torch.grid_sample reads output "
+                             "sample j at the continuous input index W_in^-1(W_out(j)) given by the two grids — for factors that divide the "
+                             "extent and factors that do not (the output extent is then larger than the input extent)")
+    D = len(shape)
+    for fac in (Fraction(3, 2), Fraction(1, 2), Fraction(2), Fraction(5, 4), (Fraction(3, 2), Fraction(1), Fraction(2))[:D]):
+        def th(fac=fac):
+            env = BatchEnv(ctx, shape, N=2, C=1, ac=ac)
+            it = env.it
+            # same spacing for all images (required by resample), distinct centers and orientations
+            s = [Rat.atom(f"s{i}") for i in range(D)]
+            for x in s:
+                env.facts.declare_positive(x)
+            grids = []
+            for b in range(2):
+                c = [Rat.atom(f"cg{b}{i}") for i in range(D)]
+                grids.append(it.new(env.Grid, size=env.size, spacing=STensor.from_flat(s, [D]), center=STensor.from_flat(c, [D]),
+                                    direction=rotation(D, f"g{b}"), align_corners=ac))
+            batch = it.new(env.IB, env.data.clone(), tuple(grids))
+            facs = [fac] * D if not isinstance(fac, tuple) else list(fac)
+            out_sp = STensor.from_flat([s[i] * facs[i] for i in range(D)], [D])
+            del symt.GRID_SAMPLE_CALLS[:]
+            r = it.method(batch, "resample", out_sp)
+            calls = list(symt.GRID_SAMPLE_CALLS)
+            rg = it.method(r, "grids")
+            if len(rg) != 2:
+                return False, f"{len(rg)} grids"
+            for b in range(2):
+                want_g = it.method(grids[b], "resample", out_sp)
+                if not teq(env.gw(rg[b]), env.gw(want_g)):
+                    return False, f"item {b}: returned grid is not Grid.resample(spacing) of the image's grid"
+                gsz = tuple(int(x) for x in it.method(rg[b], "size"))
+                if tuple(reversed(gsz)) != tuple(r.shape[2:]):
+                    return False, f"item {b}: grid size {gsz} does not match data shape {tuple(r.shape[2:])}"
+            if tuple(r.shape[2:]) == tuple(shape):
+                return (teq(r.plain(), env.data), "same size: data changed")
+            if len(calls) != 1:
+                return False, f"{len(calls)} torch.grid_sample calls"
+            c = calls[0]
+            a = bool(c["align_corners"])
+            n_in = list(reversed(shape))
+            for b in range(2):
+                A = env.index_map(grids[b], rg[b])
+                if A is None:
+                    return False, f"item {b}: grids not related by a constant index map"
+                pts = c["grid"][b if c["grid"].shape[0] > 1 else 0].reshape([-1, D])
+                q = 0
+                for jx in itertools.product(*[range(n) for n in r.shape[2:]]):
+                    j = list(reversed(jx))
+                    want_i = [sum(A[d][k] * j[k] for k in range(D)) + A[d][D] for d in range(D)]
+                    for d in range(D):
+                        x = to_rat(pts[q][d].flat()[0])
+                        got_i = (x + 1) / 2 * (n_in[d] - 1) if a else ((x + 1) * n_in[d] - 1) / 2
+                        if not to_rat(got_i).equals(to_rat(want_i[d])):
+                            return False, (f"item {b}: output sample {j} is read at input index {to_rat(got_i)} along axis {d}, but lies at "
+                                           f"{want_i[d]} according to the input and returned grids (factor {fac})")
+                    q += 1
+            return True, ""
+        _guard(ctx, "T13.resample", f"{tag}:factor={fac}", fR, f"op=resample spacing factor={fac} {tag}", th)
 
 
 def _sample_obligations(ctx: Ctx, env: BatchEnv, tag: str, fS) -> None:
